@@ -105,7 +105,7 @@ def plan(tier, base_seed):
                     i += 1
         # key derivation from a premaster secret of ODD length (RFC 2246 s5:
         # the two halves of the secret share the middle octet): finite-field
-        # DH over a 1025-bit safe prime, the master secret recomputed from
+        # DH over a 1032-bit safe prime, the master secret recomputed from
         # the tapped premaster secret with model/prf.py
         for ver in ([3, 1], [3, 2], [3, 3]):
             for role_ems in (0, 1):
@@ -127,7 +127,7 @@ def plan(tier, base_seed):
     return jobs
 
 
-ODD_P = 2 ** 1024 + 1657867       # safe prime, 129 octets
+ODD_P = 2 ** 1032 - 572057         # safe prime, 129 octets: Z is 129 octets too
 
 
 def run_odd_dh(job, ch, seed, policy, v, viol, probes):
@@ -156,7 +156,7 @@ def run_odd_dh(job, ch, seed, policy, v, viol, probes):
     finally:
         tc_mod.calc_key = orig
     if not (oc.kind == "ok" and os_.kind == "ok"):
-        v("handshake", "odd_dh", "DHE handshake over the 1025-bit group "
+        v("handshake", "odd_dh", "DHE handshake over the 1032-bit group "
           "failed: %r %r" % (oc.exc, os_.exc))
         return _result(job, ch, sim, pair, viol, probes, False, "odd")
     for pm, cr, sr, ms in calls:
